@@ -1,6 +1,7 @@
 from __future__ import print_function, division
 
 import os
+from copy import deepcopy
 
 import numpy as np
 from astropy.table import Table
@@ -441,8 +442,10 @@ class Models(object):
 
             raise Exception("Unexpected number of dimensions in flux array")
 
+        # (the result keeps its own copy of the source, which the caller may go
+        # on to modify or re-use for the next source)
         info = FitInfo()
-        info.source = source
+        info.source = deepcopy(source)
         info.av = av_best
         info.sc = sc_best
         info.chi2 = ch_best
